@@ -44,25 +44,24 @@ Theorem rabin_action_moore_indep po zk yki xkijr :
 Proof.
   intros Hz Hy Hx Hg Hh. unfold rabin_action, rabin_action_k. cbv beta zeta.
   destruct po; cbn [negb].
-  2: { destruct (fold_left _ (tl zk) _) as [r1 b1].
+  2: { destruct (fold_left _ zk _) as [r1 b1].
        destruct (fold_left _ (combine (combine zk yki) xkijr) _) as [[[r2 r3] r4] b2].
        apply indep_forall_envp. }
   (* plus_one: every conjunct is independent *)
   assert (Hca : forall t e, indep (Gr1Gen.controllable_action nc nx nyE E S true true 0 t e))
     by (intros; apply (indep_ca nc nx ny M E S true)).
-  assert (Hhd : indep (hd bfalse zk)) by (apply Forall_hd; [apply indep_bfalse|exact Hz]).
   (* rho_1 *)
-  match goal with |- context [fold_left ?f (tl zk) ?a] =>
-    assert (H1 : indep (fst (fold_left f (tl zk) a)) /\ indep (snd (fold_left f (tl zk) a))) end.
+  match goal with |- context [fold_left ?f zk ?a] =>
+    assert (H1 : indep (fst (fold_left f zk a)) /\ indep (snd (fold_left f zk a))) end.
   { apply (fold_left_inv_in (fun p : bdd * bdd => indep (fst p) /\ indep (snd p))).
-    - cbn [fst snd]. split; [apply indep_bfalse|exact Hhd].
+    - cbn [fst snd]. split; apply indep_bfalse.
     - intros [r basin] z Hzin [Hr Hb]. cbn [fst snd].
       assert (Hzi : indep z).
-      { apply Forall_tl in Hz. rewrite Forall_forall in Hz. apply Hz, Hzin. }
+      { rewrite Forall_forall in Hz. apply Hz, Hzin. }
       split; [|exact Hzi].
       apply i_bor; [exact Hr|]. apply i_band; [|mem_indep].
       apply i_band; [|apply Hca]. apply i_band; [exact Hzi|apply i_bnot, Hb]. }
-  destruct (fold_left _ (tl zk) _) as [rho_1 b1]. cbn [fst snd] in H1.
+  destruct (fold_left _ zk _) as [rho_1 b1]. cbn [fst snd] in H1.
   match goal with |- context [fold_left ?f (combine (combine zk yki) xkijr) ?a] =>
     assert (H2 : let p := fold_left f (combine (combine zk yki) xkijr) a in
                  indep (fst (fst (fst p))) /\ indep (snd (fst (fst p))) /\
@@ -230,13 +229,13 @@ Theorem rabin_memory_range mo po zk yki xkijr :
 Proof.
   intros Hlen v Hv. unfold rabin_action, rabin_action_k. cbv beta zeta.
   (* rho_1 *)
-  match goal with |- context [fold_left ?f (tl zk) ?a] =>
-    assert (H1 : SubE (fst (fold_left f (tl zk) a))) end.
+  match goal with |- context [fold_left ?f zk ?a] =>
+    assert (H1 : SubE (fst (fold_left f zk a))) end.
   { apply (fold_left_inv (fun p : bdd * bdd => SubE (fst p))); [apply SubE_bfalse|].
     intros [r basin] z Hr. cbn [fst]. apply SubE_bor; [exact Hr|]. apply SubE_band_r.
     apply SubE_mp. intros w Hw. apply andb_true_iff in Hw. destruct Hw as [Hg Hh].
     apply (Rm_g_same_h w nh (le_n _) Hg Hh). }
-  destruct (fold_left _ (tl zk) _) as [rho_1 b1]. cbn [fst] in H1.
+  destruct (fold_left _ zk _) as [rho_1 b1]. cbn [fst] in H1.
   match goal with |- context [fold_left ?f (combine (combine zk yki) xkijr) ?a] =>
     assert (H2 : let p := fold_left f (combine (combine zk yki) xkijr) a in
                  SubE (fst (fst (fst p))) /\ SubE (snd (fst (fst p))) /\ SubE (snd (fst p))) end.
